@@ -225,6 +225,9 @@ def build_document(items, pages):
                                + b"ID 07>\nEI Q\n")
                 continue
             d, data = _image_parts(it["variant"])
+            for key, val in (it.get("geom") or {}).items():
+                # document-controlled values that end up in the name of a raw dump (<name>.<bits>.<w>x<h>.img)
+                d[key.encode()] = val
             if it.get("name_entry") is not None:
                 d[b"Name"] = N(it["name_entry"])
             iid = doc.add(d, data)
@@ -873,6 +876,12 @@ def image_item(draw, idx, recipe, slot=None):
             base = inside.rsplit(b"/", 1)[-1].decode()
             where = "sub/" if inside.startswith(b"sub/in") else ""
             recipe["out"].append([where + base + ext, b"PRE:" + base.encode()])
+    if variant == "raw4" and draw(st.integers(0, 1)) == 0:
+        hv = [N(b"x"), N(b"../x"), N(b"../../outside/" + stem.encode()), b"../y", W.Real("4.5"), N(b"/abs"), [4], None]
+        it["geom"] = {k: rnd.choice(hv) for k in rnd.sample(["BitsPerComponent", "Width", "Height"], rnd.randint(1, 3))}
+        if rnd.random() < 0.6:
+            h = rnd.choice([b".", b"..", b"...", b"./.", b"x/.", b"x/.."])  # names that are path components themselves
+            kind = it["kind"] = "dots"
     it["h"] = h
     if slot in ("xobj",):
         it["res"] = h
